@@ -303,7 +303,7 @@ pub fn exec_snd(case: &[u64]) -> L {
     let (p, rest) = parse_packet(&case[1..]);
     let nenc = rest[0] as usize; let mut rest = &rest[1..];
     for _ in 0..nenc { let n = rest[0] as usize; rest = &rest[1 + n..]; }
-    let flush_ok = rest[0] != 0; let ans = &rest[1..];
+    let flush_ok = rest[0] == 1; let flush_kind = rest[0]; let ans = &rest[1..];   // 1 = flush succeeds; any other value = it fails, the value naming the error kind
     let mut o = vec![];
     match link {
         0 => {
@@ -322,19 +322,19 @@ pub fn exec_snd(case: &[u64]) -> L {
             let tx_bytes = st.borrow().tx.clone(); o.push(tx_bytes.len() as u64); o.extend(tx_bytes.iter().map(|b| *b as u64));
         }
         _ => {
-            let st = Arc::new(Mutex::new(SerSt { ans: ans.iter().map(|x| *x as u32).collect(), flush_ok, ..Default::default() }));
+            let st = Arc::new(Mutex::new(SerSt { ans: ans.iter().map(|x| *x as u32).collect(), flush_ok, flush_kind, ..Default::default() }));
             let mut tx = Serial::new(Box::new(SerDev(st.clone())));
             let r = catch_unwind(AssertUnwindSafe(|| tx.try_send_packet(&p)));
             o.push(match r {
                 Ok(Ok(())) => 0,
-                Ok(Err(InterfaceError::SerialError(SerialError::WriteError(e)))) => if e.kind() == std::io::ErrorKind::BrokenPipe { 3 } else { 2 },
+                Ok(Err(InterfaceError::SerialError(SerialError::WriteError(e)))) => if e.to_string().contains("flush failed") { 3 } else { 2 },
                 Ok(Err(_)) => 9, Err(pl) => if pl.is::<Hang>() { 4 } else { 5 } });
             let tx_bytes = st.lock().unwrap().tx.clone(); o.push(tx_bytes.len() as u64); o.extend(tx_bytes.iter().map(|b| *b as u64));
         }
     }
     o
 }
-fn emit_snd(cx: &mut Ctx, link: u64, p: &Packet, flush_ok: bool, ans: &[u64]) {
+fn emit_snd(cx: &mut Ctx, link: u64, p: &Packet, flush: u64, ans: &[u64]) {
     let mut l = vec![link]; show_packet(p, &mut l);
     let frames = p.to_frames();
     l.push(frames.len() as u64);
@@ -342,7 +342,7 @@ fn emit_snd(cx: &mut Ctx, link: u64, p: &Packet, flush_ok: bool, ans: &[u64]) {
         if link == 0 { let mut t = vec![]; crate::s_frames::show_can_pub(&f.to_bxcan_frame(), &mut t); l.push(t.len() as u64); l.extend(t); }
         else { let e = f.to_usart_frame(); l.push(e.len() as u64); l.extend(e.iter().map(|b| *b as u64)); }
     }
-    l.push(flush_ok as u64); l.extend_from_slice(ans); cx.emit(&l);
+    l.push(flush); l.extend_from_slice(ans); cx.emit(&l);
 }
 pub fn gen_snd(r: &mut Rng, thorough: bool, cx: &mut Ctx) {
     for link in 0..3u64 {
@@ -350,7 +350,7 @@ pub fn gen_snd(r: &mut Rng, thorough: bool, cx: &mut Ctx) {
             let n = match r.below(8) { 0 => r.below(9) as usize, 1 => 8, 2 => 9, 3 => 14, 4 => r.range(100, 300) as usize, _ => r.range(0, 50) as usize };
             let p = gen_packet(r, n);
             let nframes = if n <= 8 { 1 } else { (n + 6) / 7 };
-            let mut ans: Vec<u64> = vec![]; let mut flush_ok = true;
+            let mut ans: Vec<u64> = vec![]; let mut flush = 1u64;
             match link {
                 1 => {
                     let total = nframes * 10 + n + 8;     // upper bound on the number of byte writes
@@ -368,16 +368,16 @@ pub fn gen_snd(r: &mut Rng, thorough: bool, cx: &mut Ctx) {
                     let mode = k % 6;
                     let err_at = if mode == 4 { r.below(writes as u64 * 2) as usize } else { usize::MAX };
                     let zero_at = if mode == 5 && r.coin() { r.below(writes as u64 * 2) as usize } else { usize::MAX };
-                    flush_ok = !(mode == 3 || (mode == 5 && r.coin()));
+                    if mode == 3 || (mode == 5 && r.coin()) { flush = r.pick(&[0, 2, 3, 4, 5, 6]); }
                     for i in 0..(writes * 14) {
-                        if i == err_at { ans.push(if r.coin() { 0x1001 } else { 0x1002 }); continue; }
+                        if i == err_at { ans.push(0x1001 + r.below(4)); continue; }
                         if i == zero_at { ans.push(0); continue; }
                         match mode { 0 => break, 1 => ans.push(1), 2 => { if r.chance(1, 5) { ans.push(0x1000); } ans.push(r.range(1, 4)); } _ => { ans.push(r.range(1, 20)); } }
                     }
                 }
             }
-            emit_snd(cx, link, &p, flush_ok, &ans);
+            emit_snd(cx, link, &p, flush, &ans);
         }
-        if thorough { for &n in &[28672usize, 28666, 1792] { let p = gen_packet(r, n); emit_snd(cx, link, &p, true, &[]); } }
+        if thorough { for &n in &[28672usize, 28666, 1792] { let p = gen_packet(r, n); emit_snd(cx, link, &p, 1, &[]); } }
     }
 }
